@@ -210,6 +210,11 @@ func c02FB(c *ctx, name string, n, spare int) {
 	case "UnmaskFrame":
 		f.Header.Masked, f.Header.Mask = true, key
 		g = ws.UnmaskFrame(f)
+	case "UnmaskFramePlain": // a frame that is not masked: the documented copy is still a copy
+		g = ws.UnmaskFrame(f)
+	case "MaskFrameMasked": // a frame whose header already says masked
+		f.Header.Masked, f.Header.Mask = true, [4]byte{1, 2, 3, 4}
+		g = ws.MaskFrameWith(f, key)
 	}
 	inside := false
 	if len(g.Payload) > 0 && len(backing) > 0 {
@@ -281,7 +286,16 @@ func runC02(c *ctx) {
 			c02R(c, p, key, c.randChunkSpec(n), []string{"eof", "fail", "eofdata", "faildata"}[c.rng.Intn(4)], bufs)
 			c02WS(c, p, key, 1+c.rng.Intn(9), c.rng.Intn(5))
 			c02W(c, p, key, []string{"1", "3", "7,2", "4096", "16,1,5"}[c.rng.Intn(5)])
+		} else {
+			// big payloads in ONE write / read (beyond the largest class of the byte pool) and in big pieces
+			c02W(c, p, key, []string{"1000000", "65536,3", "65537", "40000"}[i%4])
+			c02R(c, p, key, []string{"-", "r65536", "r70001"}[i%3], []string{"eof", "eofdata"}[i%2], "1000000")
 		}
+	}
+	for _, n := range []int{65535, 65536, 65537, 65539, 131072, 131075, 200001} {
+		p := make([]byte, n)
+		c.rng.Read(p)
+		c02W(c, p, keys[1], "1000000")
 	}
 	// every small length through reader/writer with 1-byte granularity
 	for n := 0; n <= 40; n++ {
@@ -303,7 +317,7 @@ func runC02(c *ctx) {
 		c.rng.Read(p)
 		c02WR(c, p, keys[1], keys[2], []string{"1", "3", "7,2", "4096"}[n%4])
 	}
-	for _, name := range []string{"MaskFrame", "MaskFrameWith", "UnmaskFrame"} {
+	for _, name := range []string{"MaskFrame", "MaskFrameWith", "UnmaskFrame", "UnmaskFramePlain", "MaskFrameMasked"} {
 		for _, n := range []int{1, 7, 8, 33, 200} {
 			for _, spare := range []int{0, 1, n - 1, n, n + 1, 3 * n, 4096} {
 				if spare >= 0 {
